@@ -43,7 +43,8 @@ def match(prop, clause, signature, findings=None):
     for e in findings:
         if e.get("status") != "known":
             continue
-        if e.get("property") != prop or e.get("clause") != clause:
+        cl = e.get("clause")
+        if e.get("property") != prop or not (clause == cl or (isinstance(cl, list) and clause in cl)):
             continue
         m = e.get("match", {})
         if all(_sat(p, signature.get(k)) for k, p in m.items()):
